@@ -197,3 +197,32 @@ Example C01_refinement_total_nonvacuous :
   accepts (run g_rich c_default (orc_of t_rich) false 106 in_rich) = true.
 Proof. exact SpecTotal.rich_total_nonvacuous. Qed.
 Print Assumptions C01_refinement_total_nonvacuous.
+
+(* eolterm repetitions are in the class (when the table has no rule-level ws modifier) ... *)
+Example C01_eolterm_in_class_nonvacuous :
+  wfg SpecTotal.g_eol 24 = true /\
+  accepts (run SpecTotal.g_eol c_default (fun _ _ => None) false 50 [97;32;97;10;101;110;100]%N) = true /\
+  accepts (run SpecTotal.g_eol c_default (fun _ _ => None) false 50 [97;10;97;10;101;110;100]%N) = false.
+Proof. exact SpecTotal.eol_in_class. Qed.
+Print Assumptions C01_eolterm_in_class_nonvacuous.
+
+(* ... and the boundary: a rule-level ws inside an eolterm repetition is restored wrongly by the interpreter
+   (the newline-stripped set becomes the real one): Model: xs+=A[eolterm] 'end'; A[ws=' ']: 'a'; rejects
+   "a a\nend" at the newline *)
+Theorem C01_eolterm_rule_ws_refuted :
+  exists g c orc fuel input,
+    wfg g 24 = false /\ eol_ws_ok g = false /\
+    saccepts (spec_run g c orc fuel input) = true /\
+    run g c orc false fuel input = SyntaxErr 3.
+Proof. exists SpecTotal.g_eolws, c_default, (fun _ _ => None), 50, [97;32;97;10;101;110;100]%N. exact SpecTotal.refuted_eolws. Qed.
+Print Assumptions C01_eolterm_rule_ws_refuted.
+
+(* a predicate as the body of a rule stays outside the class: the rule matches the empty string and yields no
+   node (Model: a=A 'x'; A: &'x'; on "x") - the nullable-rule deviation *)
+Theorem C01_predicate_rule_root_refuted :
+  exists g c orc fuel input,
+    wfg g 24 = false /\
+    run_tree (run g c orc false fuel input) = [NT 0 [NT 1 [T 5 0 1 true]; T 6 1 0 true]] /\
+    spec_tree (spec_run g c orc fuel input) = [NT 0 [NT 1 [NT 2 [NT 3 []]; T 5 0 1 true]; T 6 1 0 true]].
+Proof. exists SpecTotal.g_predroot, c_default, (fun _ _ => None), 50, [120]%N. exact SpecTotal.refuted_predroot. Qed.
+Print Assumptions C01_predicate_rule_root_refuted.
